@@ -379,7 +379,7 @@ class ImplementationHang(Exception):
     pass
 
 
-_HANGS = {"n": 0}
+_HANGS = {"n": 0, "max_frac": 0.0, "max_secs": 0.0, "calls": 0}
 
 
 @contextlib.contextmanager
@@ -398,11 +398,16 @@ def time_limit(seconds: float = 20.0):
     old = signal.signal(signal.SIGALRM, on_alarm)
     # (repeating: if the implementation swallows the exception in a broad `except`, it is raised again)
     signal.setitimer(signal.ITIMER_REAL, seconds, seconds)
+    t0 = time.monotonic()
     try:
         yield
     finally:
         signal.setitimer(signal.ITIMER_REAL, 0)
         signal.signal(signal.SIGALRM, old)
+        dt = time.monotonic() - t0
+        _HANGS["calls"] += 1
+        if dt / seconds > _HANGS["max_frac"]:
+            _HANGS["max_frac"], _HANGS["max_secs"] = dt / seconds, dt
 
 
 class Ctx:
@@ -729,7 +734,9 @@ def _main(prop: str, tier: str, seed: int, replay: Optional[str], t0: float) -> 
             "model_driver_lines": ctx.driver.lines,
             "exhaustive_parts": ctx.exhaustive_parts,
             "lean_build_s": round(st.build_s, 2),
-            "notes": ctx.notes,
+            "notes": ctx.notes + ([
+                "time-bounded calls into the implementation: %d; the slowest took %.3f s = %.1f%% of its limit"
+                % (_HANGS["calls"], _HANGS["max_secs"], 100 * _HANGS["max_frac"])] if _HANGS["calls"] else []),
         },
         "assumptions": list(getattr(mod, "ASSUMPTIONS", [])),
         "wall_s": round(wall, 2),
